@@ -582,6 +582,9 @@ func Main(run *hx.Run) {
 		timed(run, "lr", plainCase(g, next(), 400, true), Exec)
 	}
 
+	// second hardening round: hash-bucket coincidences, alternatives that print alike, every input length, gadgets at size
+	round2(run, next)
+
 	// random reduced grammars
 	r := run.R.Fork("lr")
 	small := gx.GenOpts{MaxNonTerms: 3, MaxTerms: 2, MaxAlts: 3, MaxBody: 3, EpsChance: 15, UnitChance: 10, LeftRec: 15, CommonPref: 25}
